@@ -7,12 +7,18 @@
    that same element until the element itself is removed,
    whatever is inserted or removed meanwhile (all 7 containers)   -> slots_stable, live_between
    (an iterator is the address of the element's item: same slot)
+   an insertion - of one element, of all the elements of another
+   container (List::append/prepend/insert(const List&),
+   HashSet::append(const HashSet&), Map::insert(const Map&)), with
+   a position hint (Map) - takes no element away                  -> insertion_removes_no_element
    swap hands the elements over without relocating them          -> swap_hands_over_slots
    PoolList / PoolMap construct in place, never copy or move     -> pool_containers_emit_no_copy,
                                                                      elements_born_in_place
    (mechanism) free-list reuse never hands out a live item       -> live_slots_distinct,
                                                                      free_list_reuse_never_hands_out_live_slot
-   (mechanism) item blocks are only released by the destructor   -> blocks_released_only_by_destructor,
+   (mechanism, model only: the reference checker demands just that
+   no allocation holding a live element is released)
+   item blocks are only released by the destructor                -> blocks_released_only_by_destructor,
                                                                      blocks_kept_until_destructor,
                                                                      live_elements_in_owned_blocks
    the model meets the reference checker the harness
@@ -87,6 +93,13 @@ Theorem elements_born_in_place : forall k cap ops o st' ev n',
 Proof. exact (fun k cap ops o st' ev n' => born_in_place_step k cap _ o st' ev n' (reachable_inv k cap ops)). Qed.
 Print Assumptions elements_born_in_place.
 
+Theorem insertion_removes_no_element : forall k cap ops o st' ev n,
+  let st := run k cap (init k cap) ops in
+  removal_budget o = Some O -> step k cap st o = (st', ev) -> In n (all_elems st) ->
+  exists n', In n' (all_elems st') /\ n_id n' = n_id n /\ n_slot n' = n_slot n /\ n_key n' = n_key n.
+Proof. exact no_removal_all. Qed.
+Print Assumptions insertion_removes_no_element.
+
 Theorem live_slots_distinct : forall k cap ops,
   let st := run k cap (init k cap) ops in
   NoDup (slots (all_elems st)) /\
@@ -154,6 +167,33 @@ Example swap_nonvacuous :
   some_eqb (slot_of (all_elems st) 1) (slot_of (all_elems st') 1) = true.
 Proof. vm_compute. auto. Qed.
 
+(* whole-container insertions: b = [7; 8] inserted into a = [1; 2] before position 1 (List::insert(position, const List&)) *)
+Example whole_insertion_nonvacuous :
+  let st := run KList 0 (init KList 0) [OApp 0 1; OApp 0 2; OSel true; OApp 0 7; OApp 0 8; OSel false] in
+  let st' := fst (step KList 0 st (OInsAll (Some 1%nat))) in
+  map n_val (elems (s_a st')) = [1; 7; 8; 2] /\ map n_id (elems (s_a st')) = [0; 4; 5; 1]%nat /\
+  some_eqb (slot_of (all_elems st) 0) (slot_of (all_elems st') 0) = true /\
+  some_eqb (slot_of (all_elems st) 1) (slot_of (all_elems st') 1) = true /\
+  removal_budget (OInsAll (Some 1%nat)) = Some O.
+Proof. vm_compute. auto 10. Qed.
+
+(* Map::insert(const Map&): {1,2,3} gets {3,4,5}: key 3 is assigned (same object, same item), 4 and 5 are inserted and the
+   tree rotates; HashSet::remove(const HashSet&) takes exactly the common keys *)
+Example bulk_nonvacuous :
+  let st := run KMap 0 (init KMap 0) (ex1 ++ [OSel true; OApp 3 33; OApp 4 40; OApp 5 50; OSel false]) in
+  let st' := fst (step KMap 0 st (OInsAll None)) in
+  map n_key (elems (s_a st')) = [1; 2; 3; 4; 5] /\ map n_val (elems (s_a st')) = [10; 20; 33; 40; 50] /\
+  map n_id (elems (s_a st')) = [0; 1; 2; 6; 7]%nat /\
+  some_eqb (slot_of (all_elems st) 2) (slot_of (all_elems st') 2) = true.
+Proof. vm_compute. auto 10. Qed.
+
+Example remove_all_nonvacuous :
+  let st := run KHashSet 2 (init KHashSet 2) [OApp 1 0; OApp 2 0; OApp 3 0; OSel true; OApp 2 0; OApp 9 0; OSel false] in
+  let st' := fst (step KHashSet 2 st ORemAll) in
+  map n_key (elems (s_a st')) = [1; 3] /\ map n_key (elems (s_b st')) = [2; 9] /\
+  some_eqb (slot_of (all_elems st) 2) (slot_of (all_elems st') 2) = true.
+Proof. vm_compute. auto 10. Qed.
+
 Example pool_events_nonvacuous :
   let evs := run_events KPoolList 0 (init KPoolList 0) [OApp 0 1; OApp 0 2; ORemFront; OApp 0 3] in
   length (filter (fun e => match e with ECons _ _ => true | _ => false end) evs) = 3%nat /\
@@ -194,6 +234,32 @@ Example spec_rejects_a_pool_copy :
   check_step KPoolList seen2 (OApp 0 5) (mkObs [mkNode 0 (0, 3)%nat 1 10; mkNode 1 (0, 2)%nat 2 20; mkNode 2 (0, 1)%nat 0 5] [])
              [ECopy 2 (0, 1)%nat] = false.
 Proof. reflexivity. Qed.
+
+Example spec_rejects_a_rebuilding_insertion :      (* append(other) that re-creates the container's own elements in new items *)
+  check_step KList seen2 (OInsAll None) (mkObs [mkNode 2 (1, 3)%nat 1 10; mkNode 3 (1, 2)%nat 2 20] [])
+             [EAlloc 1; ECopy 2 (1, 3)%nat; ECopy 3 (1, 2)%nat; EDestroy 0 (0, 3)%nat; EDestroy 1 (0, 2)%nat] = false.
+Proof. reflexivity. Qed.
+(* what the statement leaves open is accepted: a new List element that is default-constructed in place and then assigned;
+   a clear() that also gives the (now empty) block back.  A block that still holds a live element may not be released. *)
+Example spec_accepts_construct_then_assign :
+  check_step KList seen2 (OApp 0 5) (mkObs [mkNode 0 (0, 3)%nat 1 10; mkNode 1 (0, 2)%nat 2 20; mkNode 2 (0, 1)%nat 0 5] [])
+             [ECons 2 (0, 1)%nat; EAssign 2] = true.
+Proof. reflexivity. Qed.
+Example spec_accepts_release_of_an_empty_block :
+  check_step KList seen2 OClear (mkObs [] []) [EDestroy 0 (0, 3)%nat; EDestroy 1 (0, 2)%nat; EFree 0] = true.
+Proof. reflexivity. Qed.
+Example spec_rejects_release_of_a_live_block :
+  check_step KList seen2 (ORemAt 1) (mkObs [mkNode 0 (0, 3)%nat 1 10] []) [EDestroy 1 (0, 2)%nat] = true /\
+  check_step KList seen2 (ORemAt 1) (mkObs [mkNode 0 (0, 3)%nat 1 10] []) [EDestroy 1 (0, 2)%nat; EFree 0] = false.
+Proof. split; reflexivity. Qed.
+
+(* HashSet::remove(const HashSet&) may only take elements whose key the other set contains *)
+Definition seen3 : sstate :=
+  mkS (mkObs [mkNode 0 (0, 3)%nat 1 0; mkNode 1 (0, 2)%nat 2 0] [mkNode 2 (1, 3)%nat 2 0]) false 3.
+Example spec_judges_remove_all :
+  check_step KHashSet seen3 ORemAll (mkObs [mkNode 0 (0, 3)%nat 1 0] [mkNode 2 (1, 3)%nat 2 0]) [EDestroy 1 (0, 2)%nat] = true /\
+  check_step KHashSet seen3 ORemAll (mkObs [mkNode 1 (0, 2)%nat 2 0] [mkNode 2 (1, 3)%nat 2 0]) [EDestroy 0 (0, 3)%nat] = false.
+Proof. split; reflexivity. Qed.
 
 Example blocks_nonvacuous :
   let st := run KMap 0 (init KMap 0) [OApp 1 1; OApp 2 2; OApp 3 3; OApp 4 4; OApp 5 5; OApp 6 6; OApp 7 7; OApp 8 8; OApp 9 9; ORemKey 3; OClear; OApp 1 1] in
@@ -341,4 +407,51 @@ Example tree_rebal_nonvacuous :
   t_parent (tget (th st') (0, 2)%nat) = Some (0, 1)%nat /\ t_left (tget (th st') (0, 2)%nat) = None /\
   t_height (tget (th st') (0, 1)%nat) = 2%nat /\ t_height (tget (th st') (0, 2)%nat) = 1%nat /\
   option_map o_id (t_obj (tget (th st') (0, 2)%nat)) = Some 0%nat.
+Proof. vm_compute. auto 10. Qed.
+
+(* ==== Map / MultiMap: the full cell machine of coq/Avl (property C01, imported unchanged) ================== *)
+(* AvlHeapModel.hstep performs every Item field write of Map.hpp / MultiMap.hpp (descent, link into the tree and the
+   threaded list, rotations, the walk up the parent chain with its early exit, the two-child removal that relinks the
+   neighbour Item into the removed one's place, clear, operator=, insert(const Map&), hinted insert) on a heap of cells
+   addressed by the Item's allocation number; Properties_C01.cell_machine_refines_tree proves that it refines the AVL
+   model.  The consequence for C05: while an Item stays in its container, its key field is never rewritten and its
+   value field only by an assignment to that key - no operation moves a payload from one Item to another.  [b] selects
+   the container of the pair, T1 / T2 are its cell heaps after ops1 and after ops1 ++ ops2. *)
+From Avl Require AvlSpec AvlModel AvlHeapModel AvlHeapRep.
+From Stable Require StableAvlCells.
+
+Theorem map_cells_keep_their_payload :
+  forall (f : AvlSpec.flavour) (ops1 ops2 : list AvlSpec.op) (hst1 hst2 : AvlHeapModel.hstate) (b : bool) (s : nat),
+  AvlHeapModel.hrun f AvlHeapModel.h_init ops1 = Some hst1 ->
+  AvlHeapModel.hrun f AvlHeapModel.h_init (ops1 ++ ops2) = Some hst2 ->
+  In s (AvlHeapRep.tslots (AvlModel.tr (StableAvlCells.mside b (AvlModel.run f AvlModel.m_init ops1)))) ->
+  In s (AvlHeapRep.tslots (AvlModel.tr (StableAvlCells.mside b (AvlModel.run f AvlModel.m_init (ops1 ++ ops2))))) ->
+  let T1 := fst (AvlHeapModel.ts (StableAvlCells.hside b hst1)) in
+  let T2 := fst (AvlHeapModel.ts (StableAvlCells.hside b hst2)) in
+  AvlHeapModel.ckey (T2 s) = AvlHeapModel.ckey (T1 s) /\
+  (existsb (StableAvlCells.touches (AvlHeapModel.ckey (T1 s))) ops2 = false -> AvlHeapModel.cval (T2 s) = AvlHeapModel.cval (T1 s)).
+Proof. exact StableAvlCells.tree_cell_payload_stays. Qed.
+Print Assumptions map_cells_keep_their_payload.
+
+Theorem map_cell_machine_runs : forall (f : AvlSpec.flavour) (ops : list AvlSpec.op),
+  exists hst, AvlHeapModel.hrun f AvlHeapModel.h_init ops = Some hst.
+Proof. exact StableAvlCells.tree_cells_exist. Qed.
+Print Assumptions map_cell_machine_runs.
+
+(* non-vacuity: keys 50 30 70 20 40 (Items 0..4); then 10 (rotation at the root), the two-child removal of 30 (its
+   neighbour Item is relinked into its place), 35: Item 4 (key 40) is in the tree before and after and its cell still
+   holds key 40 / value 5, while it has moved up in the tree (child of Item 1 before, the root afterwards) *)
+Definition avl_ops1 : list AvlSpec.op :=
+  [AvlSpec.OIns 50 1; AvlSpec.OIns 30 2; AvlSpec.OIns 70 3; AvlSpec.OIns 20 4; AvlSpec.OIns 40 5].
+Definition avl_ops2 : list AvlSpec.op := [AvlSpec.OIns 10 6; AvlSpec.ORemKey 30; AvlSpec.OIns 35 7].
+Definition cell_of (ops : list AvlSpec.op) (s : nat) : option (Z * Z * option nat) :=
+  match AvlHeapModel.hrun AvlSpec.FMap AvlHeapModel.h_init ops with
+  | Some h => let c := fst (AvlHeapModel.ts (AvlHeapModel.h_a h)) s in
+              Some (AvlHeapModel.ckey c, AvlHeapModel.cval c, AvlHeapModel.cpar c)
+  | None => None
+  end.
+Example map_cells_nonvacuous :
+  cell_of avl_ops1 4 = Some (40, 5, Some 1%nat) /\ cell_of (avl_ops1 ++ avl_ops2) 4 = Some (40, 5, None) /\
+  AvlHeapRep.tslots (AvlModel.tr (AvlModel.m_a (AvlModel.run AvlSpec.FMap AvlModel.m_init avl_ops1))) = [3; 1; 4; 0; 2]%nat /\
+  AvlHeapRep.tslots (AvlModel.tr (AvlModel.m_a (AvlModel.run AvlSpec.FMap AvlModel.m_init (avl_ops1 ++ avl_ops2)))) = [5; 3; 6; 4; 0; 2]%nat.
 Proof. vm_compute. auto 10. Qed.
